@@ -19,7 +19,7 @@ FNS = ["sphere", "multi", "funnels", "plateau", "zero", "linear", "offset"]
 
 def _level(r: random.Random, engine: str, depth: int, nlevels: int, lowmut: bool) -> dict:
     lv = {"engine": engine}
-    if engine in ("SEA", "SEAX", "GA", "ADAPT", "CUSTOM", "MEMETIC", "MPL"):
+    if engine in ("SEA", "SEAX", "GA", "ADAPT", "CUSTOM", "MEMETIC", "MPL", "CLONE"):
         lv.update(pop=r.choice([4, 5, 6, 8]), gens=r.choice([1, 2, 2, 3]), k_elites=r.choice([1, 1, 2]))
         if lowmut:
             lv["p_mutation"] = r.choice([0.3, 0.6])
@@ -263,6 +263,15 @@ def lifecycle_specs() -> list[dict]:
             out.append(dict(base, name=f"life{n}", seed=300 + n, hibernation=hib, maximize=maximize, gsc={"kind": "MetaepochLimit", "n": 9},
                             levels=[{"engine": "SEA", "pop": 10, "gens": 1}, dict(mid, lsc={"kind": "MetaepochLimit", "n": 1 + (n % 3)}), {"engine": "LOCAL", "maxiter": 4}],
                             sprout={"kind": "nbc_local", "gen": 1.0, "trunc": 1.0, "fil": 0.5, "limit": 2}, fn="funnels"))
+    # ... the same mechanism over leaves that live for several metaepochs: the leaf level is nearly full when a stopped parent
+    # offers its best, so the level limit has to cut what stopped parents offer
+    for k, leaf in enumerate(({"engine": "SEA", "pop": 5, "gens": 1}, {"engine": "DE", "pop": 5, "gens": 1}, {"engine": "CMA", "gens": 1})):
+        for limit in (1, 2):
+            n += 1
+            out.append(dict(base, name=f"life{n}", seed=300 + n, hibernation=(limit == 2), maximize=(k == 1), gsc={"kind": "MetaepochLimit", "n": 12},
+                            levels=[{"engine": "SEA", "pop": 12, "gens": 1}, {"engine": "DE", "pop": 6, "gens": 1, "lsc": {"kind": "MetaepochLimit", "n": 1 + k % 2}},
+                                    dict(leaf, lsc={"kind": "MetaepochLimit", "n": 6})],
+                            sprout={"kind": "nbc_local", "gen": 1.0, "trunc": 1.0, "fil": 0.3, "limit": limit}, fn="funnels"))
     return out
 
 
@@ -282,7 +291,7 @@ def engine_specs() -> list[dict]:
         {"engine": "DE", "pop": 6, "gens": 4, "crossover": 0.5}, {"engine": "DEd", "pop": 6, "gens": 3},
         {"engine": "DE", "pop": 6, "gens": 3, "scaling": 1.5}, {"engine": "SHADE", "pop": 6, "gens": 4, "mem": 3},
         {"engine": "CUSTOM", "pop": 6, "gens": 3, "p_mutation": 0.5}, {"engine": "MEMETIC", "pop": 6, "gens": 3, "k_elites": 1},
-        {"engine": "MEMETIC", "pop": 5, "gens": 2, "k_elites": 2, "p_mutation": 0.5}, {"engine": "MPL", "pop": 5, "gens": 3, "k_elites": 1},
+        {"engine": "MEMETIC", "pop": 5, "gens": 2, "k_elites": 2, "p_mutation": 0.5}, {"engine": "MPL", "pop": 5, "gens": 3, "k_elites": 1}, {"engine": "CLONE", "pop": 6, "gens": 3, "k_elites": 1},
     ]
     n = 0
     for v in variants:
@@ -366,6 +375,8 @@ def manual_specs() -> list[dict]:
                     out.append(dict(base, name=f"manual{n}", seed=900 + n, levels=[dict(l) for l in levels], sprout=dict(sprout), gsc=dict(gsc),
                                     drive=drive, hibernation=hib, reports=(n % 2 == 0), fn=["multi", "funnels", "plateau"][n % 3],
                                     maximize=(n % 5 == 0), idlecheck=False))
+                    if drive[0] == "rerun":
+                        out[-1]["dump_same_path"] = True
     # the two halves of a step called separately (test/test_gsc.py drives trees like this): the counter stays frozen
     gscs = [{"kind": "SingularEvalLimit", "n": 150}, {"kind": "AllStopped"}, {"kind": "MetaepochLimit", "n": 3}]
     sprouts = [{"kind": "simple", "far": 0.05, "limit": 3}, {"kind": "nbc", "gen": 1.0, "trunc": 1.0, "fil": 0.5, "limit": 3},
@@ -445,6 +456,38 @@ def extra_specs() -> list[dict]:
         out.append(dict(base, name=f"xtra{n}", seed=2100 + n, levels=levels, hibernation=hib, hib_form=form, fn="funnels",
                         sprout={"kind": "nbc", "gen": 1.0, "trunc": 1.0, "fil": 0.5, "limit": 2}, gsc={"kind": "MetaepochLimit", "n": 7},
                         drive=(["hms"] if k == 2 else ["run"])))
+    # the objective answers with numpy scalars / 0-d arrays (what np.where, np.squeeze, np.asarray return)
+    for k, (root, child) in enumerate((("SEA", "CMA"), ("DE", "SEA"), ("SHADE", "LOCAL"), ("SEA", "DE"), ("LHS", "CMA"), ("SEAX", "SHADE"))):
+        n += 1
+        lv0 = {"engine": root, "pop": 8, "gens": 2}
+        lv1 = {"engine": child, "pop": 6, "gens": 2, "lsc": {"kind": "MetaepochLimit", "n": 3}}
+        if child == "LOCAL":
+            lv1 = {"engine": "LOCAL", "maxiter": 3}
+        if child == "CMA":
+            lv1.pop("pop")
+        for lv in (lv0, lv1):
+            if lv["engine"] == "SHADE":
+                lv["mem"] = 3
+            if lv["engine"] == "SEAX":
+                lv["p_crossover"] = 0.6
+            if lv["engine"] == "LHS":
+                lv.pop("gens", None)
+        out.append(dict(base, name=f"xtra{n}", seed=2100 + n, levels=[lv0, lv1], maximize=(k % 2 == 0), fn=["multi", "funnels"][k % 2],
+                        ret_form=["arr0", "np64", "arr0"][k % 3], reports=(k % 2 == 1), dump_at=(2 if k % 3 == 0 else None),
+                        sprout={"kind": "simple", "far": 0.05, "limit": 2}, gsc={"kind": "MetaepochLimit", "n": 5}))
+        if out[-1]["dump_at"] is None:
+            out[-1].pop("dump_at")
+    # hibernation switched off on the live tree at a boundary (the options dictionary is public and read live)
+    for k, (sprout, third) in enumerate((({"kind": "nbc", "gen": 1.0, "trunc": 1.0, "fil": 0.5, "limit": 1}, None),
+                                         ({"kind": "simple", "far": 0.05, "limit": 1}, None),
+                                         ({"kind": "nbc", "gen": 1.0, "trunc": 1.0, "fil": 3.0, "limit": 1}, {"engine": "LOCAL", "maxiter": 2}),
+                                         ({"kind": "nbc_local", "gen": 1.0, "trunc": 1.0, "fil": 0.5, "limit": 2}, {"engine": "LOCAL", "maxiter": 2}))):
+        n += 1
+        levels = [{"engine": ["SEA", "DE"][k % 2], "pop": 10, "gens": 1}, {"engine": "SEA", "pop": 5, "gens": 1, "lsc": {"kind": "MetaepochLimit", "n": 2 + k % 2}}]
+        if third:
+            levels.append(dict(third))
+        out.append(dict(base, name=f"xtra{n}", seed=2100 + n, levels=levels, hibernation=True, hib_off_at=4 + k, fn="funnels", maximize=(k == 1),
+                        sprout=dict(sprout), gsc={"kind": "MetaepochLimit", "n": 12}, idlecheck=False))
     for k in range(3):
         n += 1
         levels = [{"engine": "SEA", "pop": 10, "gens": 2}, {"engine": "DE", "pop": 6, "gens": 2, "lsc": {"kind": "MetaepochLimit", "n": 6}},
